@@ -160,6 +160,17 @@ CLAIMED: dict[str, tuple[str, str, str, str, str]] = {
         "finite-domain truth tables (exhaustive) + abstract evaluation of the structural rule + sibling/table agreement",
         "DESIGN §5 C14",
     ),
+    "C15": (
+        "other",
+        "Decides: both resolution loops iterate self.func_ids in order, attempt every variant with the caller's arguments, "
+        "suppress only GuppyError, return the variant's own result and raise the no-match error only after the loop; the "
+        "decorator stores variants in argument order; no checker/definition function mutates an argument list in place or "
+        "returns it; and whether successive attempts share mutable argument nodes (they do: recorded known finding).",
+        "Trusted: ast parser. The rule for shared nodes is a may-analysis: it reports sharing because the checker rewrites "
+        "nodes in place (confirmed on concrete inputs, see known_findings.json).",
+        "shape/ordering rules on the resolution loops + sibling agreement + who-may-mutate (argument sharing) lint",
+        "DESIGN §5 C15",
+    ),
 }
 
 NOT_APPLICABLE: dict[str, str] = {
